@@ -36,7 +36,19 @@ def split_reads(w):
             r["name"] = r["name"].replace("_gA", "_hX").replace("_gB", "_hY").replace("_gC", "_hX")
         B.append(r)
     B.append({"name": "unm_2", "unmapped": True})
-    return {"A": A, "B": B, "C": [dict(r) for r in A]}
+    from vlib import worlds as W
+    # E: a polyA-poor experiment (no read carries a tail) with two-exon novel reads in an unannotated stretch and tail-less FSM reads:
+    # whether its mono-intronic models are reported must depend on its own polyA content only
+    E = [W.read_of("mi%d_gA" % i, "chr1", W.exons(8000, [0, 1]), polya=False) for i in range(6)]
+    E += [W.read_of("efsm%d_gB" % i, "chr1", W.exons(1000, [0, 1, 2, 3, 4]), polya=False) for i in range(4)]
+    E += [W.read_of("emono%d_gB" % i, "chr2", [[1650, 1780]], polya=False) for i in range(2)]
+    return {"A": A, "B": B, "C": [dict(r) for r in A], "E": E,
+            # D: two files with labels, F: two files without labels (technical replicas: IsoQuant groups by file name)
+            "D": [A[0::2], A[1::2]], "F": [B[0::2], B[1::2]]}
+
+
+LABELS = {"D": ["drug1", "drug2"]}
+MULTI = ("D", "F")
 
 
 def prepare(scratch, tag):
@@ -48,14 +60,18 @@ def prepare(scratch, tag):
     seqs = syn.genome_sequences(w)
     exps = split_reads(w)
     for name, reads in exps.items():
-        paths[name] = syn.write_bam(w, os.path.join(d, name + ".bam"), reads=reads, seqs=seqs)
+        if name in MULTI:
+            paths[name] = [syn.write_bam(w, os.path.join(d, "%s_lib%d.bam" % (name, i + 1)), reads=rr, seqs=seqs) for i, rr in enumerate(reads)]
+        else:
+            paths[name] = syn.write_bam(w, os.path.join(d, name + ".bam"), reads=reads, seqs=seqs)
     return w, d, paths
 
 
 def joint_case(args):
-    seq, threads, syntax, grouped, scratch = args
+    seq, threads, syntax, grouped, scratch = args[:5]
+    dtype = args[5] if len(args) > 5 else "nanopore"
     from vlib import run, vpool
-    tag = "%s_%d_%s_%d" % ("".join(seq), threads, syntax, grouped)
+    tag = "%s_%d_%s_%d_%s" % ("".join(seq), threads, syntax, grouped, dtype)
     w, d, paths = prepare(scratch, tag)
     extra = ["--read_group", "read_id:_"] if grouped else []
     errs = []
@@ -63,18 +79,31 @@ def joint_case(args):
     alone = {}
     for x in sorted(set(seq)):
         out = os.path.join(d, "alone_" + x)
-        argv = ["--output", out, "--reference", paths["ref"], "--bam", paths[x], "--data_type", "nanopore", "--prefix", x,
-                "--threads", "1", "--genedb", paths["gtf"], "--complete_genedb"] + extra
+        files = paths[x] if isinstance(paths[x], list) else [paths[x]]
+        argv = ["--output", out, "--reference", paths["ref"], "--bam"] + files + ["--data_type", dtype, "--prefix", x,
+                "--threads", "1", "--genedb", paths["gtf"], "--complete_genedb"] + extra + (["--keep_tmp"] if syntax == "saves" else [])
+        if x in LABELS:
+            argv += ["--labels"] + LABELS[x]
         rc = run.run_isoquant(argv, paths["home"], os.path.join(d, "alone_%s.txt" % x))
         if rc != 0:
             errs.append(("alone-run-failed", "stand-alone %s exit %d" % (x, rc)))
             shutil.rmtree(d, ignore_errors=True)
-            return args[:4], errs, 0
+            return args[:4] + (dtype,), errs, 0
         alone[x] = run.read_tree(os.path.join(out, x))
     out = os.path.join(d, "joint")
-    if syntax == "yaml":
+    names = list(seq)              # output folder / prefix of each experiment of the joint run
+    if syntax == "saves":
+        # the joint run restarts from the assignments saved by the stand-alone runs: experiment i is named <prefix><i>
+        inp = ["--read_assignments"] + [os.path.join(d, "alone_" + x, x, "aux", x + ".save") for x in seq]
+        names = ["OUT%d" % i for i in range(len(seq))]
+    elif syntax == "yaml":
         cfg = os.path.join(d, "in.yaml")
-        items = [{"data format": "bam"}] + [{"name": x, "long read files": [paths[x]]} for x in seq]
+        items = [{"data format": "bam"}]
+        for x in seq:
+            it = {"name": x, "long read files": paths[x] if isinstance(paths[x], list) else [paths[x]]}
+            if x in LABELS:
+                it["labels"] = LABELS[x]
+            items.append(it)
         import yaml
         with open(cfg, "w") as f:
             yaml.safe_dump(items, f)
@@ -83,9 +112,11 @@ def joint_case(args):
         cfg = os.path.join(d, "in.list")
         with open(cfg, "w") as f:
             for x in seq:
-                f.write("#%s\n%s\n" % (x, paths[x]))
+                f.write("#%s\n" % x)
+                for i, fp in enumerate(paths[x] if isinstance(paths[x], list) else [paths[x]]):
+                    f.write(fp + (":" + LABELS[x][i] if x in LABELS else "") + "\n")
         inp = ["--bam_list", cfg]
-    argv = ["--output", out, "--reference", paths["ref"], "--data_type", "nanopore", "--prefix", "OUT", "--threads", str(threads),
+    argv = ["--output", out, "--reference", paths["ref"], "--data_type", dtype, "--prefix", "OUT", "--threads", str(threads),
             "--genedb", paths["gtf"], "--complete_genedb"] + inp + extra
     hook = (lambda: vpool.install(None)) if threads > 1 else None
     rc = run.run_isoquant(argv, paths["home"], os.path.join(d, "joint.txt"), pre_hook=hook)
@@ -94,7 +125,9 @@ def joint_case(args):
         errs.append(("joint-run-failed", "exit %d: %s" % (rc, open(os.path.join(d, "joint.txt")).read()[-300:])))
     else:
         for pos, x in enumerate(seq):
-            t = run.read_tree(os.path.join(out, x))
+            t = run.read_tree(os.path.join(out, names[pos]))
+            if names[pos] != x:
+                t = {k.replace(names[pos] + ".", x + ".", 1): v for k, v in t.items()}
             for k in sorted(set(t) | set(alone[x])):
                 nfiles += 1
                 where = "first" if pos == 0 else "later"
@@ -118,12 +151,12 @@ def joint_case(args):
                         continue
                     lines = [l.rstrip("\n").split("\t") for l in open(p) if l.strip()]
                     header = lines[0]
-                    if header[1:] != list(seq):
+                    if header[1:] != names:
                         errs.append(("combined-columns", "%s columns %s, experiments %s" % (os.path.basename(p), header[1:], list(seq))))
                         continue
                     table = {l[0]: l[1:] for l in lines[1:]}
                     for ci, x in enumerate(seq):
-                        h, rows = run.parse_counts(os.path.join(out, x, "%s.%s_%s.tsv" % (x, level, kind)))
+                        h, rows = run.parse_counts(os.path.join(out, names[ci], "%s.%s_%s.tsv" % (names[ci], level, kind)))
                         exp = {f: float(v[0][0]) for f, v in rows.items()}
                         if kind == "counts":
                             exp = {f: v for f, v in exp.items() if not f.startswith("__")}
@@ -138,7 +171,10 @@ def joint_case(args):
                             errs.append(("combined-values:%s_%s" % (level, kind), "%s column %s differs from %s's own table for %s" %
                                          (os.path.basename(p), x, x, sorted(bad)[:3])))
     shutil.rmtree(d, ignore_errors=True)
-    return args[:4], errs, nfiles
+    return args[:4] + (dtype,), errs, nfiles
+
+
+MENU = "ABCDEF"
 
 
 def run(ctx):
@@ -146,13 +182,22 @@ def run(ctx):
     k = 2 if quick else 3
     seqs = []
     for n in range(1, k + 1):
-        seqs += list(itertools.permutations("ABC", n))
+        for seq in itertools.permutations(MENU, n):
+            if n == 3 and not (set(seq) <= set("ABC") or set(seq) <= set("ADE") or set(seq) <= set("BDF") or set(seq) <= set("DEF")):
+                continue
+            seqs.append(seq)
     jobs = []
     for seq in seqs:
+        new = bool(set(seq) & set("DEF"))
         for threads in (1, 2):
             for syntax in ("yaml", "list"):
-                for grouped in ((0, 1) if (not quick or len(seq) == 2) else (0,)):
-                    jobs.append((seq, threads, syntax, grouped, ctx.scratch))
+                if quick and new and (threads == 2) != (syntax == "list"):
+                    continue
+                for grouped in ((0, 1) if ((not quick or len(seq) == 2) and not set(seq) & set(MULTI)) else (0,)):
+                    for dtype in ("nanopore", "pacbio_ccs"):
+                        if dtype == "pacbio_ccs" and (grouped or "E" not in seq or (quick and syntax == "list")):
+                            continue
+                        jobs.append((seq, threads, syntax, grouped, ctx.scratch, dtype))
     ctx.rng.shuffle(jobs)
     nfiles = 0
     prefixes = set()
@@ -161,8 +206,8 @@ def run(ctx):
         for i in range(len(key[0]) + 1):
             prefixes.add(key[0][:i])
         for kk, msg in errs:
-            ctx.violation(kk, "sequence %s threads %d syntax %s grouped %d: %s" % (list(key[0]), key[1], key[2], key[3], msg),
-                          {"sequence": list(key[0]), "threads": key[1], "syntax": key[2], "grouped": key[3]})
+            ctx.violation(kk, "sequence %s threads %d syntax %s grouped %d data type %s: %s" % (list(key[0]), key[1], key[2], key[3], key[4], msg),
+                          {"sequence": list(key[0]), "threads": key[1], "syntax": key[2], "grouped": key[3], "dtype": key[4]})
     ctx.note("%d experiment sequences (length <=%d) x threads x syntax x grouping = %d joint runs; %d files compared with stand-alone runs" %
              (len(seqs), k, len(jobs), nfiles))
     ctx.coverage.update({
@@ -171,11 +216,11 @@ def run(ctx):
         "samples": [{"sequence": list(jobs[0][0]), "threads": jobs[0][1], "syntax": jobs[0][2], "grouped": jobs[0][3]}],
         "evaluations": len(jobs), "distinct_nontrivial": len([j for j in jobs if len(j[0]) > 1]),
         "rule": "state = history of experiments already processed by the process (prefix of the sequence); transition = processing one more "
-                "experiment; all orderings of <=%d experiments out of {A,B,C}" % k,
+                "experiment; all orderings of <=%d experiments out of {A,B,C,D,E,F} (triples within {A,B,C}, {A,D,E}, {B,D,F}, {D,E,F})" % k,
     })
     ctx.assumptions += ["stand-alone runs use --prefix <experiment name> so that file names and headers agree; command-line header lines dropped"]
 
 
 def replay(ctx, case):
-    key, errs, n = joint_case((tuple(case["sequence"]), case["threads"], case["syntax"], case["grouped"], ctx.scratch))
+    key, errs, n = joint_case((tuple(case["sequence"]), case["threads"], case["syntax"], case["grouped"], ctx.scratch, case.get("dtype", "nanopore")))
     return errs[0][1] if errs else None
